@@ -130,6 +130,27 @@ func (fa *FA) atomFacts(s *Sym, depth int) []Fact {
 			}
 		}
 	case "call":
+		// results of module helpers without an error result: the guarantees of all their returns
+		if c, ok := s.V.(*ssa.Call); ok && depth < 2 {
+			if g := staticCallee(&c.Call); g != nil && fa.P.InModule(g) && g.Blocks != nil {
+				res := g.Signature.Results()
+				if res.Len() == 1 {
+					for _, sf := range fa.P.retSummary(g) {
+						if sf.result != 0 {
+							continue
+						}
+						switch sf.kind {
+						case "ge-const":
+							out = append(out, le(linConst(sf.c), a, fmt.Sprintf("%s guarantees result >= %d", fnName(g), sf.c)))
+						case "le-len-param":
+							if sf.param < len(c.Call.Args) {
+								out = append(out, le(a, fa.linSym(lenOf(fa.Sym(c.Call.Args[sf.param])), 0).Add(linConst(sf.c)), fmt.Sprintf("%s guarantees result <= len(arg%d)", fnName(g), sf.param)))
+							}
+						}
+					}
+				}
+			}
+		}
 		switch s.Aux {
 		case "builtin copy":
 			out = append(out, le(linConst(0), a, "copy >= 0"))
@@ -156,6 +177,21 @@ func btoi(b bool) int {
 // FactsAt collects the facts that hold whenever instruction `in` executes:
 // dominating branch conditions plus range facts of every atom mentioned by
 // the facts or by the extra forms.
+// FactsAtSite: the facts holding on one exit of the function (see retSite).
+func (fa *FA) FactsAtSite(s retSite, extra ...*Lin) []Fact {
+	if s.Pred == nil {
+		return fa.FactsAt(s.Ret, extra...)
+	}
+	var facts []Fact
+	conds := s.Conds()
+	for _, c := range conds {
+		facts = append(facts, fa.condFacts(c)...)
+	}
+	facts = append(facts, fa.loopFacts(s.At())...)
+	facts = append(facts, fa.calleeFacts(conds)...)
+	return fa.closeFacts(facts, extra...)
+}
+
 func (fa *FA) FactsAt(in ssa.Instruction, extra ...*Lin) []Fact {
 	var facts []Fact
 	for _, c := range condsAtInstr(in) {
@@ -283,6 +319,14 @@ func (p *Prog) retSummary(g *ssa.Function) []retFact {
 		}
 		holds := func(goal func(l *Lin) *Lin) bool {
 			for _, r := range succ {
+				// the result as it stands (loop invariants and the edge-sensitive phi split see the path conditions)
+				{
+					gl := goal(fa.Lin(r.Results[i]))
+					facts := fa.FactsAt(r, gl)
+					if Entails(facts, gl) || fa.entailsPhiSplit(r, facts, gl, linConst(0), 3) {
+						continue
+					}
+				}
 				for _, alt := range phiAlternatives(r.Results[i], 3) {
 					l := fa.Lin(alt)
 					gl := goal(l)
